@@ -251,7 +251,8 @@ def gen_case(rng: random.Random, perms: int) -> dict:
         if not any(k.startswith(d + "/") for k in files):
             files[f"{d}/a.pyi"] = _content(rng, f"{d}/a.pyi")
         for k in [k for k in files if k.startswith(d + "/") and k.endswith(".py")]:      # a stubs package holds stubs
-            files[k + "i"] = _content(rng, k + "i")
+            if os.path.basename(k).count(".") == 1:
+                files[k + "i"] = _content(rng, k + "i")
             del files[k]
         stubs_pkg = rng.random() < 0.8
     if rng.random() < 0.25:
